@@ -324,11 +324,34 @@ func passSelect(name, src string) (string, int) {
 		count++
 		n := len(s.Body.List)
 		clauses := make([]string, n)
+		var temps strings.Builder
 		for i, c := range s.Body.List {
-			clauses[i] = render(off(c.Pos()), off(c.End()), s)
+			cc := c.(*ast.CommClause)
+			// the channel operand is evaluated once, up front, as the
+			// language does on entering a select; its evaluation may itself
+			// contain gates (c.Online()), the polls below must not
+			var ch ast.Expr
+			switch v := cc.Comm.(type) {
+			case *ast.SendStmt:
+				ch = v.Chan
+			case *ast.ExprStmt:
+				ch = v.X.(*ast.UnaryExpr).X
+			case *ast.AssignStmt:
+				ch = v.Rhs[0].(*ast.UnaryExpr).X
+			default:
+				die("%s: unsupported select clause", fset.Position(c.Pos()))
+			}
+			tmp := fmt.Sprintf("verifCh%d_%d", count, i)
+			fmt.Fprintf(&temps, "%s := %s\n", tmp, src[off(ch.Pos()):off(ch.End())])
+			text := render(off(c.Pos()), off(c.End()), s)
+			// the operand sits in the clause header, in front of any nested rewrite
+			rel := off(ch.Pos()) - off(c.Pos())
+			text = text[:rel] + tmp + text[rel+off(ch.End())-off(ch.Pos()):]
+			clauses[i] = text
 		}
 		orig := "select {\n" + strings.Join(clauses, "\n") + "\n}"
 		var b strings.Builder
+		b.WriteString("{\n" + temps.String())
 		fmt.Fprintf(&b, "switch verifGateSel(%q, %d) {\n", fmt.Sprintf("%s:%d", name, fset.Position(s.Pos()).Line), n)
 		for first := 0; first < n; first++ {
 			fmt.Fprintf(&b, "case %d:\n", first)
@@ -346,7 +369,7 @@ func passSelect(name, src string) (string, int) {
 				b.WriteString("}\n")
 			}
 		}
-		b.WriteString("default:\n" + orig + "\n}")
+		b.WriteString("default:\n" + orig + "\n}\n}")
 		return b.String()
 	}
 	return render(0, len(src), f), count
